@@ -129,6 +129,21 @@ PROPS = {
             "one SeqCst-ordered log: F is logged before the first borrow and D after the last release, ret after the call returned",
         ],
     },
+    "C16": {
+        "statement": "PS.run_once, PS.seq_order(_nested) / PS.seqOf_order, PS.par_may_overlap, PS.reads_union / PS.writes_union, PS.setup_reaches, PS.with_check_iff / PS.parOf_spec (+ PS.built_isolated, PS.acceptor_exact): for every Par/Seq tree, every declaration of its leaves and every interleaving",
+        "engines": [{"engine": "parseq", "args": {},
+                     "quick": {"cases": 700, "runs": 3, "reps": 2, "max-leaves": 20, "hold-us": 150},
+                     "thorough": {"cases": 12000, "runs": 4, "reps": 3, "max-leaves": 40, "hold-us": 250, "small-scope": True},
+                     "search": {"cases": 20000, "runs": 3, "reps": 2, "small-scope": True}}],
+        "aspects": ["*"],
+        "theorems_hint": ["PS.run_once", "PS.seq_order", "PS.seq_order_nested", "PS.seqOf_order", "PS.par_may_overlap", "PS.reads_union", "PS.writes_union", "PS.setup_reaches", "PS.with_check_iff", "PS.parOf_spec", "PS.built_isolated", "PS.build_is_recursive", "PS.acceptor_exact"],
+        "assumptions": [
+            "rayon 1.12: join / ThreadPool::join / install run both closures to completion before returning, on any worker (modelled as all shuffles of the two sides, not verified)",
+            CELL,
+            "leaf systems are told apart by pairwise distinct tags (the harness numbers them); `Nil` contributes no observable event",
+            "debug assertions are on in the build under test (the harness's dev profile sets debug-assertions = true, also for the shred dependency)",
+        ],
+    },
 }
 
 TEXT = {}
